@@ -6,6 +6,9 @@ package PKGNAME
 
 import (
 	"bufio"
+	"context"
+	"io"
+	"net"
 	"encoding/json"
 	"os"
 	"testing"
@@ -134,3 +137,14 @@ func (k *vfKept) Flush() {
 }
 
 type vfM = map[string]any
+
+// vfInjErr is the failure a harness injects into a wrapped reader / writer.  Real transports fail with well-known values
+// (a closed pipe, a closed connection, end of stream, an elapsed deadline, a cancelled context); code that singles one of
+// them out must still honour what it promises, so the injected failure answers errors.Is for all of them.
+type vfInjErr struct{ msg string }
+
+func (e vfInjErr) Error() string { return e.msg }
+func (e vfInjErr) Is(target error) bool {
+	return target == io.ErrClosedPipe || target == io.EOF || target == io.ErrUnexpectedEOF || target == net.ErrClosed || //nolint:errorlint
+		target == os.ErrDeadlineExceeded || target == context.Canceled || target == context.DeadlineExceeded //nolint:errorlint
+}
